@@ -57,10 +57,28 @@ _KEEP = []
 
 
 def _key(pc, extra):
-    return (tuple(p.get_id() for p in pc), extra.get_id())
+    return (tuple(map(tid, pc)), tid(extra))
+
+
+def tid(t):
+    """z3 term id, cached on the Python wrapper object (get_id() is a slow ctypes round trip)"""
+    try:
+        return t._vid
+    except AttributeError:
+        t._vid = t.get_id()
+        return t._vid
 
 
 def has_quantifier(t):
+    try:
+        return t._vq
+    except AttributeError:
+        pass
+    t._vq = _has_quantifier(t)
+    return t._vq
+
+
+def _has_quantifier(t):
     k = t.get_id()
     if k in _QCACHE:
         return _QCACHE[k]
@@ -86,6 +104,29 @@ _QCACHE = {}
 _AXCACHE = {}
 
 
+class _Inc:
+    """one incremental solver reused while the hypothesis list only grows (the common case along a path)"""
+
+    def __init__(self):
+        self.s = None
+        self.ids = []
+
+    def solver_for(self, pc):
+        ids = list(map(tid, pc))
+        n = len(self.ids)
+        if self.s is None or len(ids) < n or ids[:n] != self.ids:
+            self.s = z3.Solver()
+            self.ids = []
+            n = 0
+        for p in pc[n:]:
+            self.s.add(p)
+        self.ids = ids
+        return self.s
+
+
+_INC = _Inc()
+
+
 def check_sat(pc, extra, timeout_ms=2000):
     """sat / unsat / unknown of (pc and extra)."""
     k = _key(pc, extra)
@@ -93,13 +134,13 @@ def check_sat(pc, extra, timeout_ms=2000):
         STATS.cache_hits += 1
         return _CACHE[k]
     _KEEP.append((list(pc), extra))
-    s = z3.Solver()
-    s.set("timeout", timeout_ms)
-    for p in pc:
-        s.add(p)
-    s.add(extra)
     t = time.time()
+    s = _INC.solver_for(pc)
+    s.set("timeout", timeout_ms)
+    s.push()
+    s.add(extra)
     r = s.check()
+    s.pop()
     STATS.queries += 1
     STATS.seconds += time.time() - t
     res = "sat" if r == z3.sat else "unsat" if r == z3.unsat else "unknown"
@@ -199,6 +240,22 @@ class St:
                 if nm:
                     self.tags[x.arg(0).get_id()] = nm
                     self._tagkeep.append(x.arg(0))
+            elif z3.is_eq(x) and z3.is_int_value(x.arg(1)) and z3.is_app(x.arg(0)) and x.arg(0).decl().kind() == z3.Z3_OP_SELECT:
+                # kind[id(t)] == n  /  cls[id(t)] == n : the kind / class of an object never changes
+                sel = x.arg(0)
+                arr, idx = sel.arg(0), sel.arg(1)
+                base = arr
+                while z3.is_app(base) and base.decl().kind() == z3.Z3_OP_STORE:
+                    base = base.arg(0)
+                nm = base.decl().name() if z3.is_const(base) else ""
+                if z3.is_app(idx) and idx.decl().name() == "id" and idx.num_args() == 1:
+                    t_ = idx.arg(0)
+                    if nm.endswith(".kind"):
+                        self.tags[("kind", t_.get_id())] = x.arg(1).as_long()
+                        self._tagkeep.append(t_)
+                    elif nm.endswith(".cls"):
+                        self.tags[("cls", t_.get_id())] = x.arg(1).as_long()
+                        self._tagkeep.append(t_)
 
     def feasible(self, f):
         """pruning only: quantified hypotheses are dropped (more paths explored, never fewer)"""
@@ -228,14 +285,21 @@ class St:
 
     def model_value(self, term):
         """value of `term` in some model of the quantifier-free part of the pc (a guess to be confirmed)"""
-        s = z3.Solver()
+        pc = [p for p in self.full_pc() if not has_quantifier(p)]
+        key = ("mv", tuple(map(tid, pc)), tid(term))
+        if key in _CACHE:
+            return _CACHE[key]
+        _KEEP.append((pc, term))
+        t = time.time()
+        s = _INC.solver_for(pc)
         s.set("timeout", 2000)
-        for p in self.full_pc():
-            if not has_quantifier(p):
-                s.add(p)
+        r = None
         if s.check() == z3.sat:
-            return s.model().eval(term, model_completion=True)
-        return None
+            r = s.model().eval(term, model_completion=True)
+        STATS.queries += 1
+        STATS.seconds += time.time() - t
+        _CACHE[key] = r
+        return r
 
     def decide(self, cond, label=""):
         """Fork on a z3 Bool; prunes infeasible sides; adds the chosen side to the pc."""
